@@ -405,3 +405,65 @@ pub open spec fn pieces_subst<'a>(defs: Seq<(&'a str, Rc<Term<'a>>, Rc<Term<'a>>
         &&& view(*defs[q].2) == s_open(view(*pre[q].2), j, u, 0)
     }
 }
+
+// ---- the conversion check: what suffices, constructor by constructor, for two weak-head normal forms to be
+// convertible --------------------------------------------------------------------------------------------
+pub open spec fn conv_by_case<'a>(w1: Term<'a>, w2: Term<'a>) -> bool {
+    match (w1.variant, w2.variant) {
+        (Type, Type) | (Integer, Integer) | (Boolean, Boolean) | (True, True) | (False, False) => true,
+        (Variable(_, i1), Variable(_, i2)) => i1 == i2,
+        (Lambda(_, m1, _, b1), Lambda(_, m2, _, b2)) => m1 == m2 && s_conv(view(*b1), view(*b2)),
+        (Pi(_, m1, d1, c1), Pi(_, m2, d2, c2)) => m1 == m2 && s_conv(view(*d1), view(*d2)) && s_conv(view(*c1), view(*c2)),
+        (Application(a1, b1), Application(a2, b2)) | (Sum(a1, b1), Sum(a2, b2)) | (Difference(a1, b1), Difference(a2, b2))
+        | (Product(a1, b1), Product(a2, b2)) | (Quotient(a1, b1), Quotient(a2, b2)) | (LessThan(a1, b1), LessThan(a2, b2))
+        | (LessThanOrEqualTo(a1, b1), LessThanOrEqualTo(a2, b2)) | (EqualTo(a1, b1), EqualTo(a2, b2))
+        | (GreaterThan(a1, b1), GreaterThan(a2, b2)) | (GreaterThanOrEqualTo(a1, b1), GreaterThanOrEqualTo(a2, b2))
+            => s_conv(view(*a1), view(*a2)) && s_conv(view(*b1), view(*b2)),
+        (IntegerLiteral(x1), IntegerLiteral(x2)) => bigint_val(x1) == bigint_val(x2),
+        (Negation(a1), Negation(a2)) => s_conv(view(*a1), view(*a2)),
+        (If(a1, b1, c1), If(a2, b2, c2)) => s_conv(view(*a1), view(*a2)) && s_conv(view(*b1), view(*b2)) && s_conv(view(*c1), view(*c2)),
+        _ => false,
+    }
+}
+
+pub proof fn lemma_conv_by_case<'a>(w1: Term<'a>, w2: Term<'a>, v1: STerm, v2: STerm)
+    requires
+        s_rr(v1, view(w1)), s_rr(v2, view(w2)),
+        !(w1.variant is Unifier), !(w2.variant is Unifier),
+        conv_by_case(w1, w2),
+    ensures
+        s_conv(v1, v2),
+{
+    let k1 = kind_of(w1.variant);
+    let k2 = kind_of(w2.variant);
+    match (w1.variant, w2.variant) {
+        (Variable(_, i1), Variable(_, i2)) => {
+            lemma_conv_erase_eq(view(w1), view(w2));
+        }
+        (Lambda(_, m1, d1, b1), Lambda(_, m2, d2, b2)) => {
+            lemma_conv_node2(k1, vr(&d1), vr(&b1), vr(&d2), vr(&b2));
+        }
+        (Pi(_, m1, d1, c1), Pi(_, m2, d2, c2)) => {
+            lemma_conv_node2(k1, vr(&d1), vr(&c1), vr(&d2), vr(&c2));
+        }
+        (Application(a1, b1), Application(a2, b2)) | (Sum(a1, b1), Sum(a2, b2)) | (Difference(a1, b1), Difference(a2, b2))
+        | (Product(a1, b1), Product(a2, b2)) | (Quotient(a1, b1), Quotient(a2, b2)) | (LessThan(a1, b1), LessThan(a2, b2))
+        | (LessThanOrEqualTo(a1, b1), LessThanOrEqualTo(a2, b2)) | (EqualTo(a1, b1), EqualTo(a2, b2))
+        | (GreaterThan(a1, b1), GreaterThan(a2, b2)) | (GreaterThanOrEqualTo(a1, b1), GreaterThanOrEqualTo(a2, b2)) => {
+            assert(k1 == k2);
+            lemma_conv_node2(k1, vr(&a1), vr(&b1), vr(&a2), vr(&b2));
+        }
+        (Negation(a1), Negation(a2)) => {
+            lemma_conv_node1(k1, vr(&a1), vr(&a2));
+        }
+        (If(a1, b1, c1), If(a2, b2, c2)) => {
+            lemma_conv_node3(k1, vr(&a1), vr(&b1), vr(&c1), vr(&a2), vr(&b2), vr(&c2));
+        }
+        _ => {
+            // the leaves: equal views
+            assert(view(w1) == view(w2)) by { assert(kids_of(w1) =~= kids_of(w2)); }
+            lemma_conv_erase_eq(view(w1), view(w2));
+        }
+    }
+    lemma_conv_pre(v1, view(w1), v2, view(w2));
+}
